@@ -339,7 +339,11 @@ func corpus6(rng *rand.Rand, n int) [][]byte {
 	// what it keeps of them is checked like everything else
 	for _, c := range v6Known {
 		good := randOpt6(rng, c, 1).ToBytes()
-		for _, pay := range [][]byte{good[:len(good)/2], append(append([]byte{}, good...), 0)[:len(good)-1+2*(len(good)%2)], {1, 2, 3}} {
+		cut := good[:len(good)/2]
+		if len(good) > 0 {
+			cut = good[:len(good)-1]
+		}
+		for _, pay := range [][]byte{good[:len(good)/2], cut, append(append([]byte{}, good...), 0), {1, 2, 3}} {
 			if len(pay) > 400 {
 				continue
 			}
